@@ -170,7 +170,7 @@ private theorem core_equiv {reg : Reg} (hagree : CustomAgree reg) {recL : Ty →
   | idInt hk => exact congrArg _ (by simp [vfaCore, coerceCore, Lit.isNull, JV.isNull, hk, isScalarLit, parseLiteral, hadmII, parseId, pyStr])
   | custom hk hs =>
     have := hagree _ _ _ hk hs
-    cases hs <;> simpa [vfaCore, coerceCore, Lit.isNull, JV.isNull, hk, isScalarLit] using this
+    cases hs <;> simpa [vfaCore, coerceCore, Lit.isNull, JV.isNull, hk, isScalarLit, litAdmitted] using this
   | enum hk => exact congrArg _ (by simp [vfaCore, coerceCore, Lit.isNull, JV.isNull, hk])
   | list hL =>
     have hm := (mapE_equiv hrec _ _ hL).trans (mapEC_toOption _ _).symm
